@@ -127,6 +127,17 @@ fn macs_step(ri: usize, cids: &[u8]) {
     let mut exp_mask = mask0;
     let mut ci = 0;
     let mut room = true; // answers are appended while they fit into 15 bytes
+    // expected channel table of a dynamic plan: (present, uplink frequency, RX1 frequency)
+    let mut exp_ch = [(false, 0u32, 0u32); 16];
+    let mut rx1_free = [false; 16];
+    if !fixed {
+        let mut c = 0;
+        while c < 16 {
+            let (present, ul, dl, _) = rt::rd_channel_info(&mut region0, c);
+            exp_ch[c] = (present, ul, dl);
+            c += 1;
+        }
+    }
     while ci < cids.len() {
         let cid = cids[ci];
         let pl = p + 1;
@@ -269,6 +280,31 @@ fn macs_step(ri: usize, cids: &[u8]) {
                     if room && a + 2 <= 15 && a + 2 <= ans.len() {
                         crate::vcheck!(ans[a] == cid, "C08: NewChannelAns / DlChannelAns expected at this position");
                         crate::vcheck!(ans[a + 1] & 0xFC == 0, "C08: answer RFU bits");
+                        // effect on the channel table: exactly what a fully acknowledged request
+                        // commands, nothing for a rejected one (LoRaWAN 1.0.4 5.6 / 5.7)
+                        let st = ans[a + 1] & 3;
+                        let idx = data[pl] as usize;
+                        let freq = ((data[pl + 1] as u32) | ((data[pl + 2] as u32) << 8) | ((data[pl + 3] as u32) << 16)) * 100;
+                        let in_band = rt::freq_in_band(&mut region0, freq);
+                        if cid == 0x0A {
+                            if !in_band {
+                                crate::vcheck!(st & 1 == 0, "C08/C10: DlChannelReq with a frequency the device cannot use must be rejected");
+                            }
+                            if idx >= 16 || !exp_ch[idx & 15].0 {
+                                crate::vcheck!(st & 2 == 0, "C08/C10: DlChannelReq for an undefined channel must be rejected");
+                            }
+                            if st == 3 && idx < 16 {
+                                exp_ch[idx].2 = freq;
+                            }
+                        } else {
+                            if freq != 0 && !in_band {
+                                crate::vcheck!(st & 1 == 0, "C08/C09: NewChannelReq with a frequency the device cannot use must be rejected");
+                            }
+                            if st == 3 && idx < 16 {
+                                exp_ch[idx] = if freq == 0 { (false, 0, 0) } else { (true, freq, freq) };
+                                rx1_free[idx] = freq != 0; // whether a redefinition keeps an earlier DlChannel remap is not specified
+                            }
+                        }
                         a += 2;
                     } else {
                         room = false;
@@ -284,6 +320,13 @@ fn macs_step(ri: usize, cids: &[u8]) {
         crate::vcheck!(ans.len() == a, "C08: no answers beyond one per handled request");
     }
     crate::vcheck!(ans.len() <= 15, "C08: pending answers never exceed 15 bytes");
+    if room && !fixed {
+        let c: usize = kani::any();
+        kani::assume(c < 16);
+        let (present, ul, dl, _) = rt::rd_channel_info(&mut region, c);
+        crate::vcheck!(present == exp_ch[c].0 && (!present || ul == exp_ch[c].1), "C08/C09: channel definitions change exactly as acknowledged NewChannelReq commands say, and not at all for rejected or other commands");
+        crate::vcheck!(!present || rx1_free[c] || dl == exp_ch[c].2, "C08/C10: RX1 frequencies change exactly as acknowledged DlChannelReq commands say, and not at all for rejected ones");
+    }
     // effects on the MAC configuration: exactly what the fully-acknowledged requests commanded
     if room {
         crate::vcheck!(mc::cfg_same(&cfg, &exp_cfg), "C08: the configuration must change exactly as the acknowledged requests command, and not at all for rejected ones");
@@ -298,7 +341,7 @@ fn macs_step(ri: usize, cids: &[u8]) {
             }
         }
     }
-    kani::cover!(room && ans.len() > 0, "answers queued");
+    kani::cover!(room && ans.len() == a, "every expected answer queued and room left");
 }
 
 fn cfg0_dr(c: &super::super::Configuration) -> u8 {
